@@ -336,27 +336,36 @@ Definition bundled_pool (p1 : pool) (block : list tx) : pool :=
   mkP [] (fold_left (fun m k => srem k m) (block_keys block) (umap p1)) 0 false (gts p1).
 
 
-Definition drained_pool (p1 : pool) : pool := mkP [] [] 0 (Mempool.fresh p1) (gts p1).
+Definition restored_pool (p1 : pool) (k : list tx) : pool :=
+  rebuild_utxo_map (mkP k (umap p1) (sum_work k) (Mempool.fresh p1) (gts p1)).
 
-Lemma bundle_cases l p env wn st ex p' r :
-  bundle_block l p env wn st ex = Ok (p', r) ->
-  (p' = p /\ r = None /\ create_fails l p env wn st ex = false) \/
+Lemma core_cases l p env wn st ex p' r :
+  bundle_core l p env wn st ex = Ok (p', r) ->
+  (p' = p /\ r = None /\ create_fails l p env wn st ex = false /\ leaves_stale l p env wn st ex = false) \/
   exists s p1, st = Some s /\ can_bundle_block p env wn = true /\
     add_transaction_if_validates l p s = Ok p1 /\
-    ((dup_spend (txs p1 ++ ex) = true /\ create_fails l p env wn st ex = true /\
-      p' = drained_pool p1 /\ r = None) \/
-     (dup_spend (txs p1 ++ ex) = false /\ create_fails l p env wn st ex = false /\
-      p' = bundled_pool p1 (txs p1 ++ ex) /\ r = Some (txs p1 ++ ex))).
+    ((dup_spend (kept ex (txs p1) ++ ex) = true /\ create_fails l p env wn st ex = true /\
+      p' = restored_pool p1 (kept ex (txs p1)) /\ r = None) \/
+     (dup_spend (kept ex (txs p1) ++ ex) = false /\ create_fails l p env wn st ex = false /\
+      p' = bundled_pool p1 (kept ex (txs p1) ++ ex) /\ r = Some (kept ex (txs p1) ++ ex))).
 Proof.
-  unfold bundle_block, create_fails.
+  unfold bundle_core, create_fails, leaves_stale.
   destruct (can_bundle_block p env wn) eqn:C; simpl.
   2:{ intros H. inversion H. left. auto. }
   destruct st as [s|].
   2:{ intros H. inversion H. left. auto. }
   destruct (add_transaction_if_validates l p s) as [p1| |site] eqn:A; simpl; try discriminate.
-  destruct (dup_spend (txs p1 ++ ex)) eqn:D; intros H; inversion H; subst;
+  destruct (dup_spend (kept ex (txs p1) ++ ex)) eqn:D; intros H; inversion H; subst;
     right; exists s, p1; repeat split; auto.
 Qed.
+
+Lemma drop_bad_gt_fields p bg :
+  txs (drop_bad_gt p bg) = txs p /\ umap (drop_bad_gt p bg) = umap p /\
+  work (drop_bad_gt p bg) = work p /\ Mempool.fresh (drop_bad_gt p bg) = Mempool.fresh p.
+Proof. destruct bg; simpl; auto. Qed.
+
+Lemma kept_In ex l t : In t (kept ex l) -> In t l.
+Proof. unfold kept. intros H. apply filter_In in H. tauto. Qed.
 
 (* ------------------------------------------------------------------ *)
 (* runs                                                                *)
@@ -380,112 +389,223 @@ Qed.
 (* ------------------------------------------------------------------ *)
 (* I1, I3, I5 and the auxiliary invariants hold after every operation  *)
 
-Definition InvR (p : pool) : Prop :=
-  UniqueIds p /\ Reserved p /\ I1 p /\ I3 p /\ I5 p.
+(* UniqueIds, Reserved, I1, I5: unconditional *)
+Definition InvB (p : pool) : Prop := UniqueIds p /\ Reserved p /\ I1 p /\ I5 p.
 
-Lemma InvR_empty g u : InvR (mkP [] [] 0 u g).
+Lemma InvB_empty um g u : InvB (mkP [] um 0 u g).
 Proof.
-  unfold InvR, UniqueIds, Reserved, I1, I3, I5. simpl. repeat split; try constructor.
-  - intros t k [].
-  - intros k [].
+  unfold InvB, UniqueIds, Reserved, I1, I5. simpl. repeat split; try constructor.
+  intros t k [].
 Qed.
 
-Lemma InvR_added p t :
-  conflicts p t = false -> has_tx (t_id t) (txs p) = false -> InvR p -> InvR (added p t).
+Lemma InvB_added p t :
+  conflicts p t = false -> has_tx (t_id t) (txs p) = false -> InvB p -> InvB (added p t).
 Proof.
-  intros C H [U [R [A [B D]]]]. repeat split.
+  intros C H [U [R [A D]]]. repeat split.
   - apply added_UniqueIds; assumption.
   - apply added_Reserved; assumption.
   - apply added_I1; assumption.
-  - apply added_I3; assumption.
   - apply added_I5; assumption.
 Qed.
 
-Lemma InvR_add_transaction p t p' : add_transaction p t = Ok p' -> InvR p -> InvR p'.
+Lemma InvB_add_transaction p t p' : add_transaction p t = Ok p' -> InvB p -> InvB p'.
 Proof.
   intros H I. apply add_transaction_cases in H. destruct H as [->|[C [Hn ->]]]; [exact I|].
-  apply InvR_added; assumption.
+  apply InvB_added; assumption.
 Qed.
 
-Lemma InvR_add_if_valid l p t p' :
-  add_transaction_if_validates l p t = Ok p' -> InvR p -> InvR p'.
+Lemma InvB_add_if_valid l p t p' :
+  add_transaction_if_validates l p t = Ok p' -> InvB p -> InvB p'.
 Proof.
   intros H I. apply add_if_valid_cases in H. destruct H as [->|[_ [C [Hn ->]]]]; [exact I|].
-  apply InvR_added; assumption.
+  apply InvB_added; assumption.
 Qed.
 
-Lemma InvR_add_all l : forall p p', add_all p l = Ok p' -> InvR p -> InvR p'.
+Lemma InvB_add_all l : forall p p', add_all p l = Ok p' -> InvB p -> InvB p'.
 Proof.
   induction l as [|t l IH]; intros p p' H I; simpl in H.
   - inversion H. subst. exact I.
   - destruct (add_transaction p t) as [p1| |] eqn:A; simpl in H; try discriminate.
-    eapply IH; [exact H|]. eapply InvR_add_transaction; eauto.
+    eapply IH; [exact H|]. eapply InvB_add_transaction; eauto.
 Qed.
 
-Lemma InvR_gts_fresh p g u : InvR p -> InvR (mkP (txs p) (umap p) (work p) u g).
-Proof. unfold InvR, UniqueIds, Reserved, I1, I3, I5. simpl. tauto. Qed.
+Lemma InvB_gts_fresh p g u : InvB p -> InvB (mkP (txs p) (umap p) (work p) u g).
+Proof. unfold InvB, UniqueIds, Reserved, I1, I5. simpl. tauto. Qed.
 
-Lemma InvR_remove l p b : InvR p -> InvR (remove_block_transactions l p b).
+(* a pool whose transactions are a filtered part of a good pool's, with the index rebuilt
+   and the cache recomputed *)
+Lemma InvB_rebuilt p (f : tx -> bool) u g um :
+  InvB p ->
+  InvB (rebuild_utxo_map (mkP (filter f (txs p)) um (sum_work (filter f (txs p))) u g)).
 Proof.
-  intros [U [_ [A _]]]. destruct (remove_block_fields l p b) as [E1 [E2 E3]].
-  unfold InvR, UniqueIds, Reserved, I1, I3, I5. rewrite E2, E3, E1. repeat split.
+  intros [U [_ [A _]]]. unfold InvB, UniqueIds, Reserved, I1, I5, rebuild_utxo_map. simpl.
+  repeat split.
   - apply NoDup_map_filter. exact U.
   - intros t k Ht Hk. apply fold_sadd_In. left. unfold block_keys. apply in_flat_map. eauto.
   - apply FOP_filter. exact A.
-  - intros k Hk. apply fold_sadd_In in Hk. destruct Hk as [Hk|[]].
-    unfold block_keys in Hk. apply in_flat_map in Hk. exact Hk.
   - apply sum_work_spec.
 Qed.
 
-Lemma InvR_bundled p1 b :
-  I3 p1 -> (forall t, In t (txs p1) -> In t b) -> InvR (bundled_pool p1 b).
+Lemma I3_rebuilt l um w u g : I3 (rebuild_utxo_map (mkP l um w u g)).
 Proof.
-  intros H3 Hsub. unfold InvR, UniqueIds, Reserved, I1, I3, I5, bundled_pool. simpl.
-  repeat split; try constructor.
-  - intros t k [].
-  - intros k Hk. apply fold_srem_In in Hk. destruct Hk as [Hk Hn].
-    destruct (H3 k Hk) as [t [Ht Hkt]]. exfalso. apply Hn. unfold block_keys.
-    apply in_flat_map. exists t. auto.
+  unfold I3, rebuild_utxo_map. simpl. intros k Hk. apply fold_sadd_In in Hk.
+  destruct Hk as [Hk|[]]. unfold block_keys in Hk. apply in_flat_map in Hk. exact Hk.
 Qed.
 
-Lemma InvR_failure l p h mine b p' :
-  add_block_failure l p h mine b = Ok p' -> InvR p -> InvR p'.
+Lemma remove_block_shape l p b :
+  remove_block_transactions l p b =
+  rebuild_utxo_map (mkP (filter (fun t => valid_against l t && negb (in_block t b)) (txs p))
+                        (umap p)
+                        (sum_work (filter (fun t => valid_against l t && negb (in_block t b)) (txs p)))
+                        (Mempool.fresh p)
+                        (gts (fold_left delete_one b (set_txs p (filter (valid_against l) (txs p)))))).
+Proof.
+  unfold remove_block_transactions, delete_transactions.
+  destruct (delete_fold_fields b (set_txs p (filter (valid_against l) (txs p)))) as [H1 [H2 [_ H4]]].
+  unfold rebuild_utxo_map, set_work. cbn [txs umap work Mempool.fresh gts].
+  rewrite H1, H4. cbn [txs set_txs Mempool.fresh]. rewrite filter_filter. reflexivity.
+Qed.
+
+Lemma InvB_remove l p b : InvB p -> InvB (remove_block_transactions l p b).
+Proof. intros H. rewrite remove_block_shape. apply InvB_rebuilt. exact H. Qed.
+
+Lemma I3_remove l p b : I3 (remove_block_transactions l p b).
+Proof. rewrite remove_block_shape. apply I3_rebuilt. Qed.
+
+Lemma InvB_failure l p h mine b p' :
+  add_block_failure l p h mine b = Ok p' -> InvB p -> InvB p'.
 Proof.
   unfold add_block_failure, add_block_transactions_back. intros H I.
-  assert (InvR (delete_block p h)) as HD by (apply (InvR_gts_fresh p); exact I).
+  assert (InvB (delete_block p h)) as HD by (apply (InvB_gts_fresh p); exact I).
   destruct mine; [|inversion H; subst; exact HD].
   destruct (add_all (delete_block p h) (back_txs l b)) as [p1| |] eqn:A; simpl in H; try discriminate.
-  inversion H. subst. apply (InvR_gts_fresh p1). eapply InvR_add_all; eauto.
+  inversion H. subst. apply (InvB_gts_fresh p1). eapply InvB_add_all; eauto.
 Qed.
 
-Lemma InvR_step s o x : InvR (pl s) -> step s o = Ok x -> InvR (pl (fst x)).
+Lemma InvB_core l p env wn st ex p' r :
+  bundle_core l p env wn st ex = Ok (p', r) -> InvB p -> InvB p'.
 Proof.
-  intros HI HS. destruct o as [t|a b|env wn st ex|l b|h mine b]; simpl in HS.
-  - destruct (add_transaction_if_validates (ledger s) (pl s) t) eqn:A; simpl in HS; try discriminate.
-    inversion HS. subst. simpl. eapply InvR_add_if_valid; eauto.
-  - inversion HS. subst. simpl. unfold add_golden_ticket.
-    destruct (existsb _ _); [exact HI|]. apply (InvR_gts_fresh (pl s)). exact HI.
-  - destruct (bundle_block (ledger s) (pl s) env wn st ex) as [[p' r]| |] eqn:B; simpl in HS; try discriminate.
-    inversion HS. subst. simpl. apply bundle_cases in B.
-    destruct B as [[-> _]|[s0 [p1 [_ [_ [A [[_ [_ [-> _]]]|[_ [_ [-> _]]]]]]]]]]; auto.
-    + apply InvR_empty.
-    + apply InvR_bundled.
-      * eapply InvR_add_if_valid in A; [|exact HI]. destruct A as [_ [_ [_ [H3 _]]]]. exact H3.
-      * intros t Ht. apply in_app_iff. auto.
-  - inversion HS. subst. simpl. apply InvR_remove. exact HI.
-  - destruct (add_block_failure (ledger s) (pl s) h mine b) as [p'| |] eqn:F; simpl in HS; try discriminate.
-    inversion HS. subst. simpl. eapply InvR_failure; eauto.
+  intros B HI. apply core_cases in B.
+  destruct B as [[-> _]|[s0 [p1 [_ [_ [A [[_ [_ [-> _]]]|[_ [_ [-> _]]]]]]]]]]; auto.
+  - unfold restored_pool, kept. apply InvB_rebuilt. eapply InvB_add_if_valid; eauto.
+  - apply InvB_empty.
 Qed.
 
-Theorem all_invariants : forall g ops s,
+Lemma InvB_step s o x : InvB (pl s) -> step s o = Ok x -> InvB (pl (fst x)).
+Proof.
+  intros HI HS. destruct o as [t|a b|ts bg env wn st ex|l b|h mine b]; simpl in HS.
+  - destruct (add_transaction_if_validates (ledger s) (pl s) t) eqn:A; simpl in HS; try discriminate.
+    inversion HS. subst. simpl. eapply InvB_add_if_valid; eauto.
+  - inversion HS. subst. simpl. unfold add_golden_ticket.
+    destruct (existsb _ _); [exact HI|]. apply (InvB_gts_fresh (pl s)). exact HI.
+  - destruct (bundle_block (ledger s) (pl s) ts bg env wn st ex) as [[p' r]| |] eqn:B; simpl in HS; try discriminate.
+    inversion HS. subst. simpl. unfold bundle_block in B.
+    destruct ts; simpl in B; [|inversion B; subst; exact HI].
+    eapply InvB_core; [exact B|]. destruct bg; simpl; [apply (InvB_gts_fresh (pl s))|]; exact HI.
+  - inversion HS. subst. simpl. apply InvB_remove. exact HI.
+  - destruct (add_block_failure (ledger s) (pl s) h mine b) as [p'| |] eqn:F; simpl in HS; try discriminate.
+    inversion HS. subst. simpl. eapply InvB_failure; eauto.
+Qed.
+
+Theorem base_invariants : forall g ops s,
   run (init g) ops = Ok s ->
-  UniqueIds (pl s) /\ Reserved (pl s) /\ I1 (pl s) /\ I3 (pl s) /\ I5 (pl s).
+  UniqueIds (pl s) /\ Reserved (pl s) /\ I1 (pl s) /\ I5 (pl s).
 Proof.
   intros g ops s HR.
-  apply (run_invariant (fun s => InvR (pl s))) with (ops := ops) (s := init g); auto.
-  - intros. eapply InvR_step; eauto.
-  - apply InvR_empty.
+  apply (run_invariant (fun s => InvB (pl s))) with (ops := ops) (s := init g); auto.
+  - intros. eapply InvB_step; eauto.
+  - apply InvB_empty.
 Qed.
+
+(* I3: every step keeps it except a bundle that leaves a left-out transaction's other
+   inputs reserved; every block addition re-establishes it *)
+Lemma I3_gts_fresh p g u : I3 p -> I3 (mkP (txs p) (umap p) (work p) u g).
+Proof. unfold I3. simpl. tauto. Qed.
+
+Lemma I3_add_transaction p t p' : add_transaction p t = Ok p' -> I3 p -> I3 p'.
+Proof.
+  intros H I. apply add_transaction_cases in H. destruct H as [->|[_ [_ ->]]]; [exact I|].
+  apply added_I3. exact I.
+Qed.
+
+Lemma I3_add_if_valid l p t p' : add_transaction_if_validates l p t = Ok p' -> I3 p -> I3 p'.
+Proof.
+  intros H I. apply add_if_valid_cases in H. destruct H as [->|[_ [_ [_ ->]]]]; [exact I|].
+  apply added_I3. exact I.
+Qed.
+
+Lemma I3_add_all l : forall p p', add_all p l = Ok p' -> I3 p -> I3 p'.
+Proof.
+  induction l as [|t l IH]; intros p p' H I; simpl in H.
+  - inversion H. subst. exact I.
+  - destruct (add_transaction p t) as [p1| |] eqn:A; simpl in H; try discriminate.
+    eapply IH; [exact H|]. eapply I3_add_transaction; eauto.
+Qed.
+
+Lemma I3_core l p env wn st ex p' r :
+  bundle_core l p env wn st ex = Ok (p', r) -> leaves_stale l p env wn st ex = false ->
+  I3 p -> I3 p'.
+Proof.
+  intros B HK HI. pose proof B as B0. apply core_cases in B.
+  destruct B as [[-> _]|[s0 [p1 [-> [C [A [[_ [_ [-> _]]]|[D [_ [-> _]]]]]]]]]]; auto.
+  - unfold restored_pool. apply I3_rebuilt.
+  - assert (H1 : I3 p1) by (eapply I3_add_if_valid; eauto).
+    unfold leaves_stale in HK. rewrite C, A, D in HK. simpl in HK.
+    rewrite existsb_false in HK.
+    intros k Hk. simpl in Hk. apply fold_srem_In in Hk. destruct Hk as [Hk Hn].
+    destruct (H1 k Hk) as [t [Ht Hkt]]. exfalso.
+    specialize (HK t Ht). apply andb_false_iff in HK. destruct HK as [HK|HK].
+    + apply Hn. unfold block_keys. apply in_flat_map. exists t. split; [|exact Hkt].
+      apply in_app_iff. left. unfold kept. apply filter_In. split; [exact Ht|]. rewrite HK. reflexivity.
+    + rewrite existsb_false in HK. specialize (HK k Hkt). apply negb_false_iff in HK.
+      apply mem_In in HK. contradiction.
+Qed.
+
+Lemma I3_step s o x :
+  I3 (pl s) -> ev_left_out_stale s o = false -> step s o = Ok x -> I3 (pl (fst x)).
+Proof.
+  intros HI HK HS. destruct o as [t|a b|ts bg env wn st ex|l b|h mine b]; simpl in HS.
+  - destruct (add_transaction_if_validates (ledger s) (pl s) t) eqn:A; simpl in HS; try discriminate.
+    inversion HS. subst. simpl. eapply I3_add_if_valid; eauto.
+  - inversion HS. subst. simpl. unfold add_golden_ticket.
+    destruct (existsb _ _); [exact HI|]. apply (I3_gts_fresh (pl s)). exact HI.
+  - destruct (bundle_block (ledger s) (pl s) ts bg env wn st ex) as [[p' r]| |] eqn:B; simpl in HS; try discriminate.
+    inversion HS. subst. simpl. unfold bundle_block in B.
+    destruct ts; simpl in B; [|inversion B; subst; exact HI].
+    simpl in HK. eapply I3_core; [exact B|exact HK|].
+    destruct bg; simpl; [apply (I3_gts_fresh (pl s))|]; exact HI.
+  - inversion HS. subst. simpl. apply I3_remove.
+  - destruct (add_block_failure (ledger s) (pl s) h mine b) as [p'| |] eqn:F; simpl in HS; try discriminate.
+    inversion HS. subst. simpl. unfold add_block_failure, add_block_transactions_back in F.
+    assert (I3 (delete_block (pl s) h)) as HD by (apply (I3_gts_fresh (pl s)); exact HI).
+    destruct mine; [|inversion F; subst; exact HD].
+    destruct (add_all (delete_block (pl s) h) (back_txs (ledger s) b)) as [p1| |] eqn:A; simpl in F; try discriminate.
+    inversion F. subst. apply (I3_gts_fresh p1). eapply I3_add_all; eauto.
+Qed.
+
+Lemma run_invariant_K (K : state -> op -> bool) (Inv : state -> Prop) :
+  (forall s o x, Inv s -> K s o = false -> step s o = Ok x -> Inv (fst x)) ->
+  forall ops s s', Inv s -> known_in K s ops = false -> run s ops = Ok s' -> Inv s'.
+Proof.
+  intros Hstep. induction ops as [|o r IH]; intros s s' HI HK HR.
+  - simpl in HR. inversion HR. subst. exact HI.
+  - apply run_cons in HR. destruct HR as [x [Hs Hr]].
+    simpl in HK. apply orb_false_iff in HK. destruct HK as [HK1 HK2].
+    rewrite Hs in HK2. eapply IH; [eapply Hstep; eauto | exact HK2 | exact Hr].
+Qed.
+
+Theorem no_stale_reservation : forall g ops s,
+  known_in ev_left_out_stale (init g) ops = false -> run (init g) ops = Ok s -> I3 (pl s).
+Proof.
+  intros g ops s HK HR.
+  eapply (run_invariant_K ev_left_out_stale (fun s => I3 (pl s))); eauto using I3_step.
+  intros k [].
+Qed.
+
+(* whatever happened before, a block addition re-establishes I3 (rebuild_utxo_map) *)
+Theorem no_stale_reservation_after_block : forall s l b x,
+  step s (OBlockAdded l b) = Ok x -> I3 (pl (fst x)).
+Proof. intros s l b x H. simpl in H. inversion H. subst. simpl. apply I3_remove. Qed.
 
 (* ------------------------------------------------------------------ *)
 (* I2: after remove_block_transactions every pooled transaction validates *)
@@ -527,7 +647,7 @@ Qed.
 Definition op_consults (o : op) : Prop :=
   match o with
   | OAddTx t => consults_ledger t
-  | OBundle _ _ (Some st) _ => consults_ledger st
+  | OBundle _ _ _ _ (Some st) _ => consults_ledger st
   | _ => True
   end.
 
@@ -543,10 +663,24 @@ Proof.
     simpl in H1. destruct H1 as [<-|H1]; [right; left; reflexivity | auto].
 Qed.
 
+Lemma I2_core l p env wn st ex p' r :
+  (forall s0, st = Some s0 -> consults_ledger s0) ->
+  bundle_core l p env wn st ex = Ok (p', r) -> I2 l p -> I2 l p'.
+Proof.
+  intros HC B HI. apply core_cases in B.
+  destruct B as [[-> _]|[s0 [p1 [E [_ [A [[_ [_ [-> _]]]|[_ [_ [-> _]]]]]]]]]]; auto.
+  - assert (H1 : I2 l p1).
+    { apply add_if_valid_cases in A. destruct A as [->|[V [_ [_ ->]]]]; [exact HI|].
+      intros u [<-|Hu]; [apply tx_validate_valid; auto | apply HI; exact Hu]. }
+    intros u Hu. unfold restored_pool, rebuild_utxo_map in Hu. simpl in Hu.
+    apply H1. eapply kept_In; eauto.
+  - intros u [].
+Qed.
+
 Lemma I2_step s o x :
   op_consults o -> I2 (ledger s) (pl s) -> step s o = Ok x -> I2 (ledger (fst x)) (pl (fst x)).
 Proof.
-  intros HC HI HS. destruct o as [t|a b|env wn st ex|l b|h mine b].
+  intros HC HI HS. destruct o as [t|a b|ts bg env wn st ex|l b|h mine b].
   - simpl in HS.
     destruct (add_transaction_if_validates (ledger s) (pl s) t) eqn:A; simpl in HS; try discriminate.
     inversion HS. subst. simpl. apply add_if_valid_cases in A.
@@ -555,10 +689,12 @@ Proof.
   - simpl in HS. inversion HS. subst. simpl. unfold I2.
     destruct (add_gt_fields (pl s) a b) as [E _]. rewrite E. exact HI.
   - simpl in HS.
-    destruct (bundle_block (ledger s) (pl s) env wn st ex) as [[p' r]| |] eqn:B; simpl in HS; try discriminate.
-    inversion HS. subst. simpl. apply bundle_cases in B.
-    destruct B as [[-> _]|[s0 [p1 [_ [_ [A [[_ [_ [-> _]]]|[_ [_ [-> _]]]]]]]]]]; auto;
-      intros u [].
+    destruct (bundle_block (ledger s) (pl s) ts bg env wn st ex) as [[p' r]| |] eqn:B; simpl in HS; try discriminate.
+    inversion HS. subst. simpl. unfold bundle_block in B.
+    destruct ts; simpl in B; [|inversion B; subst; exact HI].
+    eapply I2_core; [|exact B|].
+    + intros s0 E. subst. exact HC.
+    + unfold I2. destruct (drop_bad_gt_fields (pl s) bg) as [E _]. rewrite E. exact HI.
   - apply pooled_valid_after_block in HS. destruct HS as [E H]. rewrite E. exact H.
   - simpl in HS.
     destruct (add_block_failure (ledger s) (pl s) h mine b) as [p'| |] eqn:F; simpl in HS; try discriminate.
@@ -606,16 +742,17 @@ Proof.
 Qed.
 
 
-(* ... hence after every operation sequence *)
+(* ... hence after every operation sequence without a stale-leaving bundle, and after every
+   block addition *)
 Theorem unspent_always_spendable : forall g ops s t,
+  known_in ev_left_out_stale (init g) ops = false ->
   run (init g) ops = Ok s ->
   tx_validate (ledger s) t = true -> t_type t <> TGoldenTicket -> producer_only t = false ->
   has_tx (t_id t) (txs (pl s)) = false ->
   (forall k u, In k (vkeys t) -> In u (txs (pl s)) -> ~ In k (in_keys u)) ->
   exists p', add_transaction_if_validates (ledger s) (pl s) t = Ok p' /\ In t (txs p').
 Proof.
-  intros g ops s t HR. destruct (all_invariants g ops s HR) as [_ [_ [_ [H3 _]]]].
-  apply fresh_spend_pooled. exact H3.
+  intros g ops s t HK HR. apply fresh_spend_pooled. eapply no_stale_reservation; eauto.
 Qed.
 
 (* the recomputation in delete_transactions makes the cache exact, whatever it was *)
@@ -629,39 +766,80 @@ Qed.
 (* ------------------------------------------------------------------ *)
 (* I4: bundling                                                        *)
 
-Theorem bundle_atomic : forall l p env wn st ex p' r,
-  bundle_block l p env wn st ex = Ok (p', r) ->
-  create_fails l p env wn st ex = false ->
+(* Every bundle, in any pool state, outside the class of a failing Block::create.
+   p0 = the pool without a golden ticket that does not solve the tip.
+   None: nothing but that ticket changed.
+   Some b: b has no double spend; the pool is emptied and the cache reset; every pooled
+   transaction is in b, except those that spend an output which b itself rebroadcasts
+   (Block::create leaves them out: they can never validate again once b is on the chain);
+   no input of a transaction of b stays reserved. *)
+Theorem bundle_atomic : forall l p ts bg env wn st ex p' r,
+  bundle_block l p ts bg env wn st ex = Ok (p', r) ->
+  create_fails l (drop_bad_gt p bg) env wn st ex = false ->
   match r with
-  | None => p' = p
-  | Some b => txs p' = [] /\ work p' = 0 /\ dup_spend b = false /\
-              (forall t, In t (txs p) -> In t b) /\
+  | None => p' = p \/ (ts = true /\ p' = drop_bad_gt p bg)
+  | Some b => ts = true /\ txs p' = [] /\ work p' = 0 /\ dup_spend b = false /\
+              (forall t, In t (txs p) ->
+                 In t b \/ (exists k, In k (vkeys t) /\ In k (rebroadcast_keys ex))) /\
               (forall t k, In t b -> In k (in_keys t) -> ~ In k (umap p')) /\
-              gts p' = gts p
+              gts p' = gts (drop_bad_gt p bg)
   end.
 Proof.
-  intros l p env wn st ex p' r B F. apply bundle_cases in B.
-  destruct B as [[-> [-> _]]|[s0 [p1 [_ [_ [A [[_ [F' _]]|[D [_ [-> ->]]]]]]]]]]; [reflexivity|congruence|].
+  intros l p ts bg env wn st ex p' r B F. unfold bundle_block in B.
+  destruct ts; simpl in B; [|inversion B; subst; auto].
+  apply core_cases in B.
+  destruct B as [[-> [-> _]]|[s0 [p1 [_ [_ [A [[_ [F' _]]|[D [_ [-> ->]]]]]]]]]]; [auto|congruence|].
   apply add_if_valid_cases in A.
+  destruct (drop_bad_gt_fields p bg) as [Et _].
   assert (Hsub : forall t, In t (txs p) -> In t (txs p1))
-    by (destruct A as [->|[_ [_ [_ ->]]]]; simpl; auto).
-  assert (Hg : gts p1 = gts p) by (destruct A as [->|[_ [_ [_ ->]]]]; reflexivity).
+    by (rewrite <- Et; destruct A as [->|[_ [_ [_ ->]]]]; simpl; auto).
+  assert (Hg : gts p1 = gts (drop_bad_gt p bg)) by (destruct A as [->|[_ [_ [_ ->]]]]; reflexivity).
   simpl. repeat split; auto.
-  - intros t Ht. apply in_app_iff. left. auto.
+  - intros t Ht. apply Hsub in Ht.
+    destruct (left_out (rebroadcast_keys ex) t) eqn:L.
+    + right. unfold left_out in L. destruct (t_type t); try discriminate;
+        apply existsb_exists in L; destruct L as [k [Hk Hm]]; apply mem_In in Hm; eauto.
+    + left. apply in_app_iff. left. unfold kept. apply filter_In. rewrite L. auto.
   - intros t k Ht Hk Hin. apply fold_srem_In in Hin. destruct Hin as [_ Hn]. apply Hn.
     unfold block_keys. apply in_flat_map. eauto.
 Qed.
 
-(* when Block::create does fail the drained transactions are lost, but nothing stale is
-   left: the pool is empty, without reservations, with a zero cache *)
-Theorem failed_create_leaves_empty_pool : forall l p env wn st ex p' r,
-  bundle_block l p env wn st ex = Ok (p', r) ->
-  create_fails l p env wn st ex = true ->
-  r = None /\ txs p' = [] /\ umap p' = [] /\ work p' = 0.
+(* a transaction that Block::create leaves out does not validate against any ledger from
+   which the block's rebroadcast inputs are gone *)
+Theorem left_out_is_doomed : forall rk t ledger',
+  left_out rk t = true -> t_type t <> TFee ->
+  (forall k, In k rk -> ~ In k ledger') -> valid_against ledger' t = false.
 Proof.
-  intros l p env wn st ex p' r B F. apply bundle_cases in B.
-  destruct B as [[_ [_ F']]|[s0 [p1 [_ [_ [A [[_ [_ [-> ->]]]|[_ [F' _]]]]]]]]]; try congruence.
-  simpl. auto.
+  intros rk t l' L T Hgone. unfold left_out in L.
+  assert (exists k, In k (vkeys t) /\ In k rk) as [k [Hk Hr]].
+  { destruct (t_type t); try discriminate;
+      apply existsb_exists in L; destruct L as [k [Hk Hm]]; apply mem_In in Hm; eauto. }
+  unfold vkeys in Hk. apply in_map_iff in Hk. destruct Hk as [i [E Hi]]. apply filter_In in Hi.
+  destruct Hi as [Hi Hpos].
+  assert (forallb (slip_valid l') (t_inputs t) = false) as HF.
+  { destruct (forallb (slip_valid l') (t_inputs t)) eqn:FB; [|reflexivity].
+    rewrite forallb_forall in FB. specialize (FB i Hi). unfold slip_valid in FB.
+    rewrite Hpos in FB. apply mem_In in FB. subst. exfalso. eapply Hgone; eauto. }
+  unfold valid_against. destruct (t_type t); try exact HF. congruence.
+Qed.
+
+(* when Block::create does fail, the transactions it kept come back: the pool holds exactly
+   those, with a rebuilt index and a recomputed cache; only the left-out ones are gone *)
+Theorem failed_create_restores_pool : forall l p ts bg env wn st ex p' r,
+  bundle_block l p ts bg env wn st ex = Ok (p', r) ->
+  ts = true -> create_fails l (drop_bad_gt p bg) env wn st ex = true ->
+  r = None /\ I3 p' /\ work p' = sum_work (txs p') /\
+  (forall t, In t (txs p) -> In t (txs p') \/ left_out (rebroadcast_keys ex) t = true).
+Proof.
+  intros l p ts bg env wn st ex p' r B -> F. unfold bundle_block in B. simpl in B.
+  apply core_cases in B.
+  destruct B as [[_ [_ [F' _]]]|[s0 [p1 [_ [_ [A [[_ [_ [-> ->]]]|[_ [F' _]]]]]]]]]; try congruence.
+  split; [reflexivity|]. split; [apply I3_rebuilt|]. split; [reflexivity|].
+  intros t Ht. destruct (drop_bad_gt_fields p bg) as [Et _]. rewrite <- Et in Ht.
+  assert (In t (txs p1)) as H1
+    by (apply add_if_valid_cases in A; destruct A as [->|[_ [_ [_ ->]]]]; simpl; auto).
+  destruct (left_out (rebroadcast_keys ex) t) eqn:L; [auto|]. left.
+  unfold restored_pool, rebuild_utxo_map, kept. simpl. apply filter_In. rewrite L. auto.
 Qed.
 
 Lemma NoDup_app' (a b : list N) : NoDup a -> NoDup b -> Disjoint a b -> NoDup (a ++ b).
@@ -700,34 +878,48 @@ Qed.
 (* Block::create cannot fail after the drain when the pool has no double spend (I1, which
    holds on every run without a re-insertion), no pooled transaction names an input twice,
    and what Block::create adds itself does not clash *)
-(* Block::create cannot fail after the drain when no pooled transaction (nor the staking
-   transaction) names an input twice -- Transaction::validate rejects those since 0fedb86 --
-   and what Block::create adds itself (golden ticket, rebroadcasts, fee transaction) does
-   not spend an output that a pooled transaction spends.  I1 and Reserved hold on every
-   reachable pool (all_invariants). *)
+(* Block::create cannot fail when no pooled transaction (nor the staking transaction) names
+   an input twice -- Transaction::validate rejects those since 0fedb86 --, its rebroadcasts
+   name each output once, and what else it adds (golden ticket: no value input; fee
+   transaction: not counted) spends nothing that the pool spends.  A clash between a pooled
+   transaction and a rebroadcast no longer matters: the transaction is left out.  Reserved and
+   I1 hold on every reachable pool (base_invariants); a reachable pool holds no
+   GoldenTicket-typed transaction (add_transaction panics on them). *)
 Theorem create_succeeds : forall l p env wn st ex,
   Reserved p -> I1 p ->
-  (forall t, In t (txs p) -> NoDup (vkeys t)) ->
-  (forall s, st = Some s -> NoDup (vkeys s)) ->
+  (forall t, In t (txs p) -> NoDup (vkeys t) /\ t_type t <> TGoldenTicket) ->
+  (forall s, st = Some s -> NoDup (vkeys s) /\ t_type s <> TGoldenTicket) ->
   NoDup (spent_keys ex) ->
-  (forall k t, In k (spent_keys ex) -> In t (txs p) -> ~ In k (vkeys t)) ->
-  (forall k s, In k (spent_keys ex) -> st = Some s -> ~ In k (vkeys s)) ->
+  (forall k, In k (spent_keys ex) -> ~ In k (rebroadcast_keys ex) ->
+     (forall t, In t (txs p) -> ~ In k (vkeys t)) /\ (forall s, st = Some s -> ~ In k (vkeys s))) ->
   create_fails l p env wn st ex = false.
 Proof.
-  intros l p env wn st ex R H1 Hn Hs He Hd1 Hd2. unfold create_fails.
+  intros l p env wn st ex R H1 Hn Hs He Hd. unfold create_fails.
   destruct (can_bundle_block p env wn); [|reflexivity]. simpl.
   destruct st as [s|]; [|reflexivity].
   destruct (add_transaction_if_validates l p s) as [p1| |] eqn:A; try reflexivity.
   apply add_if_valid_cases in A. unfold dup_spend. apply has_dup_NoDup.
+  assert (Hp1 : forall t, In t (txs p1) -> In t (txs p) \/ t = s)
+    by (destruct A as [->|[_ [_ [_ ->]]]]; simpl; intros t Ht; [auto | destruct Ht; auto]).
+  assert (I1p1 : I1 p1)
+    by (destruct A as [->|[_ [C [_ ->]]]]; [exact H1 | apply added_I1; assumption]).
+  assert (Hwf : forall t, In t (txs p1) -> NoDup (vkeys t) /\ t_type t <> TGoldenTicket).
+  { intros t Ht. destruct (Hp1 t Ht) as [H|E]; [apply Hn; exact H | subst t; apply Hs; reflexivity]. }
   unfold spent_keys. rewrite flat_map_app. apply NoDup_app'.
   - apply spent_NoDup.
-    + destruct A as [->|[_ [C [_ ->]]]]; [exact H1 | apply added_I1; assumption].
-    + destruct A as [->|[_ [_ [_ ->]]]]; [exact Hn|]. simpl. intros t [<-|Ht]; [eapply Hs; eauto | auto].
+    + unfold kept. apply FOP_filter. exact I1p1.
+    + intros t Ht. apply kept_In in Ht. apply Hwf. exact Ht.
   - exact He.
   - intros k Hk1 Hk2. apply spent_keys_In in Hk1. destruct Hk1 as [t [Ht Hkt]].
-    destruct A as [->|[_ [_ [_ ->]]]].
-    + eapply Hd1; eauto.
-    + simpl in Ht. destruct Ht as [<-|Ht]; [eapply Hd2; eauto | eapply Hd1; eauto].
+    unfold kept in Ht. apply filter_In in Ht. destruct Ht as [Ht HL]. apply negb_true_iff in HL.
+    destruct (in_dec N.eq_dec k (rebroadcast_keys ex)) as [Hr|Hr].
+    + assert (left_out (rebroadcast_keys ex) t = true); [|congruence].
+      unfold left_out. destruct (Hwf t Ht) as [_ Hgt].
+      assert (existsb (fun k0 => mem k0 (rebroadcast_keys ex)) (vkeys t) = true)
+        by (apply existsb_exists; exists k; split; [exact Hkt | apply mem_In; exact Hr]).
+      destruct (t_type t); congruence.
+    + destruct (Hd k Hk2 Hr) as [Hd1 Hd2].
+      destruct (Hp1 t Ht) as [H|E]; [eapply Hd1; eauto | subst t; eapply Hd2; eauto].
 Qed.
 
 (* ------------------------------------------------------------------ *)
@@ -736,7 +928,7 @@ Qed.
 Definition op_no_gt (o : op) : Prop :=
   match o with
   | OAddTx t => t_type t <> TGoldenTicket
-  | OBundle _ _ (Some st) _ => t_type st <> TGoldenTicket
+  | OBundle _ _ _ _ (Some st) _ => t_type st <> TGoldenTicket
   | _ => True
   end.
 
@@ -764,12 +956,13 @@ Qed.
 
 Lemma step_total s o : op_no_gt o -> exists x, step s o = Ok x.
 Proof.
-  intros H. destruct o as [t|a b|env wn st ex|l b|h mine b]; simpl in *; eauto.
+  intros H. destruct o as [t|a b|ts bg env wn st ex|l b|h mine b]; simpl in *; eauto.
   - destruct (add_if_valid_total (ledger s) (pl s) t H) as [p' ->]. simpl. eauto.
-  - unfold bundle_block. destruct (negb (can_bundle_block (pl s) env wn)); simpl; [eauto|].
+  - unfold bundle_block, bundle_core. destruct ts; simpl; [|eauto].
+    destruct (negb (can_bundle_block (drop_bad_gt (pl s) bg) env wn)); simpl; [eauto|].
     destruct st as [st|]; simpl; [|eauto].
-    destruct (add_if_valid_total (ledger s) (pl s) st H) as [p' ->]. simpl.
-    destruct (dup_spend (txs p' ++ ex)); simpl; eauto.
+    destruct (add_if_valid_total (ledger s) (drop_bad_gt (pl s) bg) st H) as [p' ->]. simpl.
+    destruct (dup_spend (kept ex (txs p') ++ ex)); simpl; eauto.
   - unfold add_block_failure, add_block_transactions_back. destruct mine; simpl; [|eauto].
     destruct (add_all_total (back_txs (ledger s) b) (delete_block (pl s) h)) as [p' ->].
     + intros t Ht. unfold back_txs in Ht. apply filter_In in Ht. destruct Ht as [_ Ht].
@@ -803,23 +996,64 @@ Definition wA  : tx := mkTx 10 [(1, 100)] 50 TNormal true 0.
 Definition wA2 : tx := mkTx 10 [(1, 100); (2, 100)] 50 TNormal true 0.
 Definition wB  : tx := mkTx 11 [(1, 100)] 30 TNormal true 0.      (* spends what wA spends *)
 Definition wC  : tx := mkTx 13 [(2, 100)] 20 TNormal true 0.
+Definition wE  : tx := mkTx 15 [(3, 100)] 40 TNormal true 0.
 Definition wS  : tx := mkTx 90 [] 0 TBlockStake true 0.           (* staking transaction, stake 0 *)
 Definition wR  : tx := mkTx 30 [(1, 100)] 0 TATR true 0.          (* rebroadcast of output 1 *)
 Definition wG  : list N := [1; 2; 3].
 
-(* I4 still fails: Block::create rebroadcasts an output at the window edge that a pooled
-   transaction spends; it detects the double spend after draining the pool, and the two
-   pooled transactions (one of them unrelated to the clash) are lost *)
-Lemma I4_refuted :
-  exists g ops s env wn st ex p',
-    run (init g) ops = Ok s /\
-    forallb (fun t => negb (has_dup (vkeys t))) (txs (pl s)) = true /\
-    map t_id (txs (pl s)) = [13; 10] /\
-    bundle_block (ledger s) (pl s) env wn st ex = Ok (p', None) /\ txs p' = [] /\
-    ev_failed_create s (OBundle env wn st ex) = true.
+(* user-visible failure of I3: a spendable output that no pooled transaction names, and a
+   fresh valid transaction spending it that the pool does not take *)
+Definition funds_locked (s : state) (t : tx) : Prop :=
+  tx_validate (ledger s) t = true /\ t_type t = TNormal /\
+  has_tx (t_id t) (txs (pl s)) = false /\
+  (forall k u, In k (vkeys t) -> In u (txs (pl s)) -> ~ In k (in_keys u)) /\
+  add_transaction_if_validates (ledger s) (pl s) t = Ok (pl s).
+
+(* window edge: wA2 spends output 1, which the block rebroadcasts, and output 2; wE is
+   unrelated.  Block::create leaves wA2 out and bundles wE; the reservation of output 2
+   stays although no pooled transaction names it, also after the bundled block failed to
+   be added -- until the next block addition *)
+Definition ops_left_out : list op :=
+  [OAddTx wA2; OAddTx wE; OBundle true None true 0 (Some wS) [wR]].
+
+Lemma I3_refuted_left_out :
+  exists g ops s, run (init g) ops = Ok s /\
+    known_in ev_left_out_stale (init g) ops = true /\ ~ I3 (pl s).
 Proof.
-  exists wG, [OAddTx wA; OAddTx wC]. eexists. exists true, 0, (Some wS), [wR]. eexists.
-  split; [vm_compute; reflexivity|]. repeat split; vm_compute; reflexivity.
+  exists wG, ops_left_out. eexists. split; [vm_compute; reflexivity|]. split; [vm_compute; reflexivity|].
+  intros H. apply I3_I3b in H. vm_compute in H. discriminate.
+Qed.
+
+Lemma funds_locked_left_out :
+  exists g ops s t, run (init g) ops = Ok s /\ funds_locked s t.
+Proof.
+  exists wG, (ops_left_out ++ [OBlockFailed 77 true [wE; wS; wR]]). eexists. exists wC.
+  split; [vm_compute; reflexivity|].
+  unfold funds_locked. simpl. repeat split; try reflexivity.
+  intros k u [<-|[]] [<-|[]]. simpl. intros [E|[]]. discriminate.
+Qed.
+
+(* the same bundle seen from I4: the block holds wE (and the additions), the pool is empty,
+   wA2 is in neither *)
+Lemma left_out_example :
+  exists s p' b, run (init wG) [OAddTx wA2; OAddTx wE] = Ok s /\
+    bundle_block (ledger s) (pl s) true None true 0 (Some wS) [wR] = Ok (p', Some b) /\
+    map t_id b = [90; 15; 30] /\ txs p' = [] /\ umap p' = [2].
+Proof. eexists. eexists. eexists. split; [vm_compute; reflexivity|]. repeat split; vm_compute; reflexivity. Qed.
+
+(* a failing Block::create (model level: two rebroadcasts of the same output) hands the
+   pool back; what changed is the staking transaction that bundle_block had added *)
+Lemma failed_create_witness :
+  exists g ops s ex p',
+    run (init g) ops = Ok s /\
+    bundle_block (ledger s) (pl s) true None true 0 (Some wS) ex = Ok (p', None) /\
+    ev_failed_create s (OBundle true None true 0 (Some wS) ex) = true /\
+    map t_id (txs p') = [90; 15; 10] /\ p' <> pl s.
+Proof.
+  exists wG, [OAddTx wA; OAddTx wE]. eexists.
+  exists [mkTx 31 [(7, 5)] 0 TATR true 0; mkTx 32 [(7, 5)] 0 TATR true 0]. eexists.
+  split; [vm_compute; reflexivity|]. repeat split; try (vm_compute; reflexivity).
+  intros H. inversion H.
 Qed.
 
 (* a GoldenTicket-typed transaction handed to add_transaction_if_validates panics *)
@@ -827,13 +1061,15 @@ Lemma panic_reachable :
   exists g t, step (init g) (OAddTx t) = Panic SITE_GT_IN_TXPOOL.
 Proof. exists wG, (mkTx 20 [(0, 0)] 0 TGoldenTicket true 5). reflexivity. Qed.
 
-(* the histories that broke the pool before the fixes 2cf0b5a / cafb4ab / ff837ac:
+(* the histories that broke the pool before the fixes 2cf0b5a / cafb4ab / ff837ac / 1214e31:
    (a) own bundled block fails, its transaction comes back, a conflicting one arrives;
    (b) a peer block spends one of two inputs of a pooled transaction;
    (c) a block off the longest chain contains a pooled transaction;
-   each followed by a fresh spend of the output that used to stay locked *)
+   each followed by a fresh spend of the output that used to stay locked;
+   (d) a pooled transaction spends an output that the bundled block rebroadcasts: the
+       unrelated transaction is bundled instead of being lost with the whole pool *)
 Definition ops_readd : list op :=
-  [OAddTx wA; OBundle true 0 (Some wS) []; OBlockFailed 77 true [wA; wS]; OAddTx wB].
+  [OAddTx wA; OBundle true None true 0 (Some wS) []; OBlockFailed 77 true [wA; wS]; OAddTx wB].
 Definition ops_invalidated : list op :=
   [OAddTx wA2; OBlockAdded [2; 3; 4] [mkTx 12 [(1, 100)] 0 TNormal true 0]; OAddTx wC].
 Definition ops_confirmed_offchain : list op :=
@@ -845,34 +1081,39 @@ Lemma regression_examples :
   (exists s, run (init wG) ops_invalidated = Ok s /\
              map t_id (txs (pl s)) = [13] /\ umap (pl s) = [2]) /\
   (exists s, run (init wG) ops_confirmed_offchain = Ok s /\
-             map t_id (txs (pl s)) = [11] /\ umap (pl s) = [1]).
+             map t_id (txs (pl s)) = [11] /\ umap (pl s) = [1]) /\
+  (exists s p' b, run (init wG) [OAddTx wA; OAddTx wE] = Ok s /\
+             bundle_block (ledger s) (pl s) true None true 0 (Some wS) [wR] = Ok (p', Some b) /\
+             map t_id b = [90; 15; 30] /\ umap p' = []).
 Proof.
-  repeat split; eexists; (split; [vm_compute; reflexivity|]); repeat split; vm_compute; reflexivity.
+  repeat split; repeat eexists; try (vm_compute; reflexivity).
 Qed.
 
-(* non-vacuity: arrivals of which one conflicts, a duplicate, a golden ticket, a successful
+(* non-vacuity: arrivals of which one conflicts, a duplicate, a golden ticket that does not
+   solve the tip (dropped by the bundle), a bundle declined for its timestamp, a successful
    bundle, the bundled block added, a new arrival, a peer block that invalidates nothing,
    a failed peer block, a failed own block that returns a transaction *)
-Definition wE : tx := mkTx 15 [(3, 100)] 40 TNormal true 0.
 Definition wF : tx := mkTx 18 [(4, 100)] 7 TNormal true 0.
 Definition ops_life : list op :=
   [OAddTx wA2; OAddTx wB; OAddTx wA2; OAddGT 7 21;
-   OBundle true 0 (Some wS) [mkTx 21 [(0, 0)] 0 TGoldenTicket true 7];
-   OBlockAdded [3; 4; 5] [mkTx 21 [(0, 0)] 0 TGoldenTicket true 7; wA2; wS];
+   OBundle false None true 0 (Some wS) [];
+   OBundle true (Some 7) true 0 (Some wS) [];
+   OBlockAdded [3; 4; 5] [wA2; wS];
    OAddTx wE;
    OBlockAdded [3; 4; 5; 6] [mkTx 16 [(9, 5)] 0 TNormal true 0];
    OBlockFailed 78 false [wE];
    OBlockFailed 79 true [wF; wE]].
 
+Definition Kall (s : state) (o : op) : bool := ev_failed_create s o || ev_left_out_stale s o.
+
 Lemma life_example :
-  exists s, run (init wG) ops_life = Ok s /\ known_in ev_failed_create (init wG) ops_life = false /\
-            map t_id (txs (pl s)) = [18; 15] /\ umap (pl s) = [4; 3] /\ work (pl s) = 47.
+  exists s, run (init wG) ops_life = Ok s /\ known_in Kall (init wG) ops_life = false /\
+            map t_id (txs (pl s)) = [18; 15] /\ umap (pl s) = [4; 3] /\ work (pl s) = 47 /\
+            gts (pl s) = [].
 Proof. eexists. split; [vm_compute; reflexivity|]. repeat split; vm_compute; reflexivity. Qed.
 
-(* projections of all_invariants, stated separately in props/C14.v *)
+(* projections of base_invariants, stated separately in props/C14.v *)
 Theorem no_double_spend_in_pool : forall g ops s, run (init g) ops = Ok s -> I1 (pl s).
-Proof. intros g ops s H. apply (all_invariants g ops s H). Qed.
-Theorem no_stale_reservation : forall g ops s, run (init g) ops = Ok s -> I3 (pl s).
-Proof. intros g ops s H. apply (all_invariants g ops s H). Qed.
+Proof. intros g ops s H. apply (base_invariants g ops s H). Qed.
 Theorem routing_work_cache : forall g ops s, run (init g) ops = Ok s -> I5 (pl s).
-Proof. intros g ops s H. apply (all_invariants g ops s H). Qed.
+Proof. intros g ops s H. apply (base_invariants g ops s H). Qed.
